@@ -120,6 +120,14 @@ def reply_mutants(rng, host):
     out.append(("reply-payload-count", q, ["Mismatched quantity of method parameters"]))
     q = _clone(host); m = _rm(q, "on_alpha_err"); m["payload"] = [u32, u64]
     out.append(("reply-payload-type", q, ["Mismatched parameter in reply handlers"]))
+    vu32, vst = spec.intern_type(host, T.vec(T.U32)), spec.intern_type(host, T.vec(T.STRING))
+    ou32, ovu32 = spec.intern_type(host, T.option(T.U32)), spec.intern_type(host, T.option(T.vec(T.U32)))
+    for tag, (ta, tb) in (("vec", (vu32, vst)), ("option", (ou32, ovu32))):
+        q = _clone(host)
+        q["types"] = host["types"]
+        _rm(q, "on_alpha_ok")["payload"] = [ta, st]
+        _rm(q, "on_alpha_err")["payload"] = [tb, st]
+        out.append((f"reply-payload-type-generic-arg-{tag}", q, ["Mismatched parameter in reply handlers"]))
     q = add(_clone(host), dict(reply_method(host, "on_gamma", ["gamma"], "error", "raw"), params_text=["error: String"]))
     out.append(("reply-missing-payload-error", q, ["Missing payload parameter"]))
     q = add(_clone(host), dict(reply_method(host, "on_gamma", ["gamma"], "success", "raw"), params_text=[]))
@@ -186,10 +194,15 @@ def iface_mutants(rng, host):
 
 # ---------------------------------------------------------------- exhaustive small reply tables
 
+# payload signatures of the small tables: different arity, different type, and types that differ only in a generic argument
+SIGS = [0, 1, 2, 3]
+SIG_TEXT = {0: "p1: u32, p2: String", 1: "p1: u64", 2: "p1: Vec<u32>", 3: "p1: Vec<String>"}
+
+
 def small_tables(max_methods=3):
     """All ordered tables of <= max_methods methods over names {a, b}: each method serves [a], [b] or [a,b],
     has outcome s/e/a and one of two payload signatures."""
-    kinds = list(itertools.product([("a",), ("b",), ("a", "b")], ["success", "error", "always"], [0, 1]))
+    kinds = list(itertools.product([("a",), ("b",), ("a", "b")], ["success", "error", "always"], SIGS))
     for n in range(1, max_methods + 1):
         for combo in itertools.product(kinds, repeat=n):
             yield combo
@@ -218,7 +231,7 @@ def table_program(combo, idx):
              "    #[sv::msg(instantiate)]", "    fn instantiate(&self, ctx: InstantiateCtx) -> StdResult<Response> { todo!() }"]
     for i, (serves, outcome, sig) in enumerate(combo):
         first = {"success": "", "error": "error: String, ", "always": "result: SubMsgResult, "}[outcome]
-        pay = "p1: u32, p2: String" if sig == 0 else "p1: u64"
+        pay = SIG_TEXT[sig]
         lines.append(f"    #[sv::msg(reply, handlers=[{', '.join(serves)}], reply_on={outcome})]")
         lines.append(f"    fn m{i}(&self, ctx: ReplyCtx, {first}{pay}) -> StdResult<Response> {{ todo!() }}")
     lines.append("}")
